@@ -26,6 +26,13 @@ CORPUS = os.path.join(fw.VERIF, "corpus", "registry")
 KNOWN_SIGNATURES = [
     {"id": "D10", "property": "C14", "oracle": "INV", "key": ("shared_duplicate", "shared_anonymous"), "op": ("SetName",),
      "text": "set_name on a shared property creates a duplicate/anonymous shared property (D10)"},
+    # After clear() anonymised the mesh's own position property the user can create a persistent Vec3d vertex property
+    # named "ovm:position"; copy construction / assignment clone it, make_prop() (request_property) adopts the clone as
+    # the position property and std::copy overwrites its values with the positions.  Only scripts that create such a
+    # property by name match (the generator never does; corpus/registry/known-findings.scripts#F6 does).
+    {"id": "F6-user-position-clobbered", "property": "C13", "oracle": "CPY", "key": ("persistent", "vertex"),
+     "op": ("CopyMesh", "Assign"), "script_has": r"^(CreatePersistent|CreateShared|Request) \d+ \d+ V vec3d 1 ",
+     "text": "a user-made persistent \"ovm:position\" property (possible after clear()) is overwritten with the positions in the copy"},
 ]
 
 def sig_listed(sig):
@@ -36,7 +43,7 @@ def sig_listed(sig):
             return True
     return False
 
-def match_known(oracle, key, opline):
+def match_known(oracle, key, opline, lines=()):
     toks = opline.split()
     op = toks[0] if toks else ""
     for sig in KNOWN_SIGNATURES:
@@ -45,6 +52,7 @@ def match_known(oracle, key, opline):
         if "name_token" in sig:
             # Create* <h> <m> <kind> <type> <name> <def>
             if len(toks) < 6 or toks[5] != sig["name_token"]: continue
+        if "script_has" in sig and not any(re.match(sig["script_has"], l) for l in lines): continue
         return sig
     return None
 
@@ -182,7 +190,7 @@ class RegRun:
                         if key in prev: continue
                         opline = head_op(mblocks[stp - 1][0]) if 0 < stp <= len(mblocks) else ""
                         sub = o["what"].split(" ")[0]
-                        sig = match_known(o["oracle"], sub, opline)
+                        sig = match_known(o["oracle"], sub, opline, lines[:stp])
                         if sig:
                             self.known_hits[sig["id"]] = self.known_hits.get(sig["id"], 0) + 1
                         else:
@@ -291,7 +299,7 @@ def judge(ctx, pid, rr, oracle_classes, crash_ops):
             for o in ofs:
                 if o["oracle"] == cls and o["what"].split(" ")[0] == key:
                     opl = head_op(mb[o["step"] - 1][0]) if 0 < o["step"] <= len(mb) else ""
-                    if not match_known(cls, key, opl): return True
+                    if not match_known(cls, key, opl, [head_op(b[0]) for b in mb]): return True
             return False
         small = rr.shrink(of["lines"], pred)
         ctx.violations.append({"kind": "input", "oracle": cls + ":" + key, "what": of["msg"], "op": of["op"], "script_name": of["script"],
@@ -357,8 +365,8 @@ def check_C14(ctx):
                        "throwing/refused transition AND >= 1 successful handle drop or mesh destruction")
     ctx.cov["samples"] += [{"theorem": t} for t in fw.theorem_statements("Props/Properties_C14.v", 4)]
     ctx.assumptions += COMMON_ASSUMPTIONS + [
-        "shared -> named and unique is proved for histories without set_name on a shared property and without create_shared/"
-        "create_persistent with the empty name; both are refuted for the full API (C14_set_name_refuted, C14_create_anonymous_refuted)"]
+        "shared -> named and unique is proved for histories without set_name on a shared property; the unrestricted statement is "
+        "refuted (C14_set_name_refuted, finding D10)"]
 
 def check_C13(ctx):
     fw.coq_prove(ctx, "Props/Properties_C13.v")
@@ -374,5 +382,8 @@ def check_C13(ctx):
     ctx.assumptions += COMMON_ASSUMPTIONS + [
         "the TopologyKernel members are copied memberwise (defaulted copy): modelled as copying the kernel record; their agreement is checked "
         "by the lock step (full kernel dump of both meshes) and the CPY oracle",
-        "copy/assignment theorems are about transitions that do not end in undefined behaviour; the one reachable undefined case (a persistent "
-        "\"ovm:position\" property) is a finding (C13_persistent_position_refuted)"]
+        "C13_copy_equal_partial assumes that a persistent property of the source with the key (vertex, Vec3d, \"ovm:position\") is "
+        "its own position property; without that the statement is refuted (C13_copy_equal_refuted, signature F6): a user-made "
+        "persistent \"ovm:position\" (possible after clear()) is overwritten with the positions in the copy",
+        "positions: the copy receives all position values of the source (prefix equality); that both vectors have exactly n_vertices "
+        "entries is a kernel invariant checked by the lock step, not proved here"]
